@@ -298,7 +298,7 @@ def main(argv):
         os.makedirs(rdir, exist_ok=True)
         path = os.path.join(rdir, f"{prop}_bounded_{seed}.json")
         json.dump({"property": prop, "found_by": "bounded stand-in (native run of the real code)", "concrete_failing_input": v,
-                   "bounded_result_file": bounded.get("file"), "replay_cmd": f"{PY} bounded/run.py --replay {bounded.get('file')}:0"}, open(path, "w"), indent=1, default=str)
+                   "bounded_result_file": bounded.get("file"), "replay_cmd": f"./check replay {path}"}, open(path, "w"), indent=1, default=str)
         lines.append(f"VIOLATION property={prop} replay={path}")
         lines.append(f"  found by the bounded stand-in: {str(v.get('what'))[:300]}")
         status = 1
@@ -454,7 +454,15 @@ def replay(path):
             env["PYTHONPATH"] = os.path.join(REPO, "src") + os.pathsep + env.get("PYTHONPATH", "")
         p = subprocess.run(mr["cmd"], shell=True, cwd=HERE, env=env)
         rc = max(rc, p.returncode)
-    if d.get("bounded_result_file") and os.path.exists(d["bounded_result_file"]):
-        p = subprocess.run([PY, os.path.join(HERE, "bounded", "run.py"), "--replay", d["bounded_result_file"] + ":0"], cwd=HERE)
+    v = d.get("concrete_failing_input")
+    if isinstance(v, dict) and v.get("inputs") is not None:
+        # self-contained: the failing input is in the replay file itself (the bounded result file it
+        # came from is rewritten by later runs)
+        tmp = path + ".case.json"
+        json.dump({"property": d.get("property"), "violations": [v]}, open(tmp, "w"), default=str)
+        env = dict(os.environ)
+        if REPO != "/repo":
+            env["PYTHONPATH"] = os.path.join(REPO, "src") + os.pathsep + env.get("PYTHONPATH", "")
+        p = subprocess.run([PY, os.path.join(HERE, "bounded", "run.py"), "--replay", tmp], cwd=HERE, env=env)
         rc = max(rc, p.returncode)
     return rc
